@@ -61,5 +61,7 @@ int main(int argc, char** argv)
 	}
 	if (cmd == "itoa") { int x = atoi(argv[2]); String s(x); char b[32]; snprintf(b, 32, "%d", x); if (check("String(int)", s, b)) return 1; if ((int)s != x) { printf("REPRODUCED int round trip %d -> %d\n", x, (int)s); return 1; } return 0; }
 	if (cmd == "ltoa") { Long x = atoll(argv[2]); String s(x); char b[32]; snprintf(b, 32, "%lld", x); if (check("String(Long)", s, b)) return 1; if (s.toLong() != x) { printf("REPRODUCED Long round trip\n"); return 1; } return 0; }
+	if (cmd == "fmt") { int L = atoi(argv[2]); std::string w(L, 'x'); for (int i = 0; i < L; i++) w[i] = (char)('a' + i % 26);   // output of exactly L bytes
+		return check("String::f", String::f("%s", w.c_str()), w); }
 	printf("unknown command\n"); return 2;
 }
